@@ -652,7 +652,7 @@ func (r *Run) callBuiltin(caller *frame, callpos token.Pos, fn *ssa.Builtin, arg
 			if x.bytes {
 				return len(x.cps)
 			}
-			panic(unsupported("len of rune vector (byte length is not the rune count)"))
+			return lenV(x) // UTF-8 length of the code points
 		case symBytes:
 			return termOrInt(StrLen(asTerm(x.s)))
 		case array:
